@@ -58,7 +58,8 @@ PROPS = {
         suites=[
             dict(name="queue", pkg="./queue/", test="TestVerifQueue", min_lines=1000,
                  oracles=["emits_unknown_file", "emits_allocated_file", "not_least_in_order", "not_next_in_arrival_order",
-                          "names_itself", "wrong_predecessor", "prev_chain_lost_on_repush"]),
+                          "names_itself", "wrong_predecessor", "prev_chain_lost_on_repush"],
+                 diffs=["pop-file", "pop-slice", "pop-prev", "pop-send", "pop-nil"]),
         ],
         rule=QUEUE_RULE,
         level_text=("Proof: Coq theorems over the executable model of queue.Tagged for all Push/Pop histories: pending lists stay sorted in the "
@@ -78,7 +79,8 @@ PROPS = {
         coq="Properties/C12.v",
         suites=[
             dict(name="queue", pkg="./queue/", test="TestVerifQueue", min_lines=1000,
-                 oracles=["priority_inversion", "round_robin_bypassed", "idle_while_ready"]),
+                 oracles=["priority_inversion", "round_robin_bypassed", "idle_while_ready"],
+                 diffs=["pop-group", "pop-nil"]),
         ],
         rule=QUEUE_RULE,
         level_text=("Proof: Coq theorems for all histories: the group list stays sorted by priority, Pop serves the first ready group in list order, "
